@@ -333,8 +333,18 @@ func (st *c04State) history(cs *c04Case) {
 	pal := c04Pals[cs.Pal]
 	st.z = render.Renderer{}
 	st.rect = rect
-	// the target is configured twice: another height first, the final rectangle only after Reset
-	st.z.SetRasterizer(&st.ras, image.Rect(1, 2, 20, 2+cs.Height+7))
+	// alternating from case to case: the plain order on a Renderer value that was copied after
+	// it had been configured, or the target configured twice (another height first, the final
+	// rectangle only after Reset)
+	twice := (cs.Pal+cs.Height+len(cs.Letters)+len(cs.Probes))%2 == 1
+	if twice {
+		st.z.SetRasterizer(&st.ras, image.Rect(1, 2, 20, 2+cs.Height+7))
+	} else {
+		// configured elsewhere and handed over by value (a helper returning a Renderer)
+		var tmp render.Renderer
+		tmp.SetRasterizer(&st.ras, rect)
+		st.z = tmp
+	}
 	if cs.Reused {
 		// the same Renderer rendered another graphic with the SAME palette before: every colour and
 		// number register, both selectors and the LOD are dirty when Reset is called
@@ -350,7 +360,9 @@ func (st *c04State) history(cs *c04Case) {
 		st.z.AbsQuadTo(1, 2, 3, 4)
 	}
 	st.z.Reset(ivg.DefaultViewBox, pal)
-	st.z.SetRasterizer(&st.ras, rect)
+	if twice {
+		st.z.SetRasterizer(&st.ras, rect)
+	}
 	st.vm.Reset(pal)
 	calls := c04Calls(cs.Letters, cs.Height)
 	fail := func(key, what string) {
